@@ -102,7 +102,7 @@ class ShardClose(Contract):
     props = ("C04",)
     use_at_call_sites = False
     configs = _cfgs()
-    timeout_ms = 60000
+    timeout_ms = 120000
 
     def configs_for(self, tier):
         return list(_cfgs(tier))
